@@ -171,7 +171,7 @@ def register(ctx, report, facts, config, rule="C17.REGISTER"):
                 cf = S.crate_fields(f_)
                 if cf and cf[-1][0] == MT and cf[-1][1] in (vt, "tys", "indices"):
                     n += 1
-                    if bd.key != b.key and not (bd.key in reg_cone and not bd.raw.get("pub")):
+                    if bd.key != b.key and not (bd.key in reg_cone and not bd.api):
                         report.ob(rule, "table-mutated/%s/%s" % (bd.qname, cf[-1][1]), False, "MetaTable.%s is changed by `%s` in %s" % (cf[-1][1], c.name, bd.qname), site=bd.loc(bb), config=config)
     report.floor(rule, "mutating accesses to the three tables", n, 3, config=config)   # at least: an index enters the map, an entry each is appended to the vtable table and to tys
 
